@@ -778,6 +778,10 @@ class Interp:
             return BV(64, 1)        # only used by debug-mode null-dereference assertions (`SIZE != 0`)
         if re.match(r'^<.* as (?:std::mem::)?SizedTypeProperties>::ALIGN$', c):
             return BV(64, 1)        # only used by debug-mode alignment assertions; every model pointer is aligned
+        if c.startswith('<'):
+            last = strip_generics(c).rsplit('::', 1)[-1]
+            if last[:1].islower() or last[:1] == '_':
+                return FnItem(c)
         if c.startswith('{alloc') or c.startswith('<') or 'ALIGN' in c or 'SIZE' in c:
             return Opaque(want_ty or '', 'const:' + c)
         # fn item / ZST
